@@ -2773,6 +2773,15 @@ class ChannelManager:
         # Process the response
         channel.on_connection_response(response)
 
+        # File the channel by destination CID right away: the coroutine that is
+        # opening it only resumes later, possibly after other packets or the
+        # disconnection of the link have been processed.
+        if channel.state == LeCreditBasedChannel.State.CONNECTED:
+            le_connection_channels = self.le_coc_channels.setdefault(
+                connection.handle, {}
+            )
+            le_connection_channels[channel.destination_cid] = channel
+
     def on_l2cap_credit_based_connection_request(
         self,
         connection: Connection,
@@ -2908,6 +2917,12 @@ class ChannelManager:
             response.result
             == L2CAP_Credit_Based_Connection_Response.Result.ALL_CONNECTIONS_SUCCESSFUL
         ):
+            # File the channels by destination CID right away (see above)
+            le_connection_channels = self.le_coc_channels.setdefault(
+                connection.handle, {}
+            )
+            for channel in channels:
+                le_connection_channels[channel.destination_cid] = channel
             connection_result.set_result(None)
         else:
             connection_result.set_exception(
@@ -2976,10 +2991,6 @@ class ChannelManager:
             logger.exception('connection failed')
             del connection_channels[source_cid]
             raise
-
-        # Remember the channel by source CID and destination CID
-        le_connection_channels = self.le_coc_channels.setdefault(connection.handle, {})
-        le_connection_channels[channel.destination_cid] = channel
 
         return channel
 
@@ -3085,11 +3096,6 @@ class ChannelManager:
             for cid in source_cids:
                 del connection_channels[cid]
             raise
-
-        # Remember the channel by source CID and destination CID
-        le_connection_channels = self.le_coc_channels.setdefault(connection.handle, {})
-        for channel in channels:
-            le_connection_channels[channel.destination_cid] = channel
 
         return channels
 
